@@ -1,20 +1,12 @@
 (* C16 - Directory population mirrors the file tree under the rules.
    Statement file: theorems only, each closed by [exact].
 
-   PARTIAL.  C16 is partial by nature: glob.iglob, os.path and the file system
-   are trusted (the model takes the path sequence glob returned in the run
-   as input; wf_b checks in Coq that it is a permutation of the non-hidden
-   part of the directory tree the harness created).  Beyond that, only part
-   of the implication accepts -> holds is proved below.
+   C16 is partial in one respect only: glob.iglob, os.path and the file
+   system are trusted (the model takes the path sequence glob returned in
+   the run as input; wf_b checks in Coq that it is a permutation of the
+   non-hidden part of the directory tree the harness created).
 
-   The full statement (evaluated on every observed case by the check, but
-   not proved for all cases):
-
-     Theorem C16_population_mirrors_tree :
-       forall c : C16_case, wf_b c = true -> known_b c = false ->
-                            accepts c = true -> holds c.
-
-   where [holds] says, per call of the populator on the same map:
+   [holds] says, per call of the populator on the same map:
    (1) ValueError exactly when some rule path exists and is not a directory,
        a missing rule path is skipped;
    (2) exactly one handle was built per regular file under a processed
@@ -23,29 +15,31 @@
    (3) under every key (the file's path relative to the root, extension
        dropped with trim_extensions, for files only) the handles built for
        it in this call lie on top of what was there (nest_on_conflict) or
-       replace its top (otherwise), and no other key changed;
+       replace its top (otherwise), and no other key changed - in
+       particular every accepted file is reachable under its key through
+       the handle built last for it, every directory on the way is a
+       sub-map, and repeated population layers again;
    (4) the sub-maps that were there stay, and every new sub-map corresponds
        to a directory under (or leading to) a rule's directory;
    (5) every sub-map and handle records its containing map and its name.
 
-   Proved for all cases (theorem below): (1), (2) and (5) - together with
-   the invariant behind them: on every well-formed input the model of the
-   populator keeps the C11 store invariant and none of its steps fails (no
-   AttributeError / IndexError in the conflict test, every key exists); the
-   factory calls of the model are, rule by rule, the accepted files of the
-   sequence glob returned, hence (wf_b: that sequence is a permutation of
-   the tree; known_b = false: nothing is hidden) of the tree.
-   Missing: (3) and (4).  They need a path-level refinement between the C11
-   store (a graph of objects) and the per-key columns of the observed tree
-   (uniqueness of paths in the store, frame lemmas for __setitem__ along a
-   path, and the absence of file/directory key clashes from wf_b); it was
-   not carried out.  (3) and (4) are nevertheless evaluated by holds_b on
-   every observed case, and the model (accepts) is compared with the whole
-   observed tree, so a violation of (3)/(4) by the code is reported. *)
+   C16_population_mirrors_tree proves all of it for every well-formed case
+   outside the two known findings.  The proof goes through a path-level
+   view of the C11 store (which paths from the populated map lead to a map,
+   and the column of handles under a key): uniqueness of paths, frame
+   lemmas for every step of __setitem__ and for the new layer, and the
+   absence of file / directory key clashes from wf_b.  The earlier partial
+   theorem (clauses (1), (2), (5)) is kept below. *)
 From Coq Require Import ZArith List Bool String.
-From Desper Require Import Lib.Alist Tree.C11Model Tree.C16Model Tree.C16Proofs Tree.C16Log Tree.C16Main.
+From Desper Require Import Lib.Alist Tree.C11Model Tree.C16Model Tree.C16Proofs Tree.C16Log Tree.C16Main
+     Tree.C16Final.
 Import ListNotations.
 Open Scope Z_scope.
+
+Theorem C16_population_mirrors_tree :
+  forall c : C16_case, wf_b c = true -> known_b c = false -> accepts c = true -> holds c.
+Proof. intros c Hwf Hk Hacc. exact (accepts_holds_full c Hwf Hk Hacc). Qed.
+Print Assumptions C16_population_mirrors_tree.
 
 Theorem C16_population_mirrors_tree_partial :
   forall c : C16_case, wf_b c = true -> known_b c = false -> accepts c = true ->
